@@ -1,11 +1,11 @@
 package props
 
 import (
-	"unicode"
 	"encoding/hex"
 	"fmt"
 	"regexp"
 	"strings"
+	"unicode"
 
 	"github.com/TimothyStiles/poly/seqhash"
 	"github.com/TimothyStiles/poly/transform"
@@ -400,6 +400,15 @@ func runSeqhash(w *mon.W, c05 bool) {
 			rna := strings.NewReplacer("T", "U", "t", "u").Replace(s)
 			if hr := shJudge(w, id, rna, "RNA", circ, ds, false); hr != "" && (hr[:3] != h[:3] || hr[3] != 'R' || hr[4:] != h[4:]) {
 				w.Violation(id, fmt.Sprintf("RNA spelling of %q differs from the DNA spelling in more than the type letter (%s)", clip(s, 60), flagName(circ, ds)), map[string]any{"sequence": s})
+			} else if ds && hr != "" {
+				// the other strand of the RNA spelling, as the library's own ReverseComplement writes it
+				var lib string
+				if mon.Try(func() { lib = transform.ReverseComplement(rna) }) == "" && len(lib) == len(rna) {
+					if hl := shJudge(w, id, lib, "RNA", circ, ds, false); hl != hr && hl != "" {
+						w.Violation(id, fmt.Sprintf("transform.ReverseComplement(%q) = %q hashes differently under type RNA from the sequence itself as a double-stranded molecule (%s)", clip(rna, 60), clip(lib, 60), flagName(circ, ds)), map[string]any{"sequence": rna})
+					}
+					w.Add("library_reverse_complement_calls_on_rna_spelling", 1)
+				}
 			}
 		}
 		w.End()
